@@ -206,7 +206,7 @@ Section Page.
     destruct onTop.
     - exists [32], [32; 32; 32]. split; [reflexivity|]. split; [reflexivity|]. right.
       exists [32], [32]. repeat split; try reflexivity; try discriminate.
-      unfold s_q_open, s_q_close, s_sp2. repeat rewrite <- app_assoc. reflexivity.
+      all: try (unfold s_q_open, s_q_close, s_sp2; repeat rewrite <- app_assoc; reflexivity).
     - exists s_sp2, []. split; [reflexivity|]. split; [reflexivity|]. left. rewrite app_nil_r. reflexivity.
   Qed.
 
@@ -226,7 +226,7 @@ Section Page.
         * rewrite Hj. cbn [page_bytes].
           exists [32], [32; 32; 32]. split; [reflexivity|]. split; [reflexivity|]. right.
           exists [32], [10; 32]. repeat split; try reflexivity; try discriminate.
-          unfold s_q_open, s_q_close, s_sp2. repeat rewrite <- app_assoc. reflexivity.
+          all: try (unfold s_q_open, s_q_close, s_sp2; repeat rewrite <- app_assoc; reflexivity).
         * change ([] : bytes) with ([] ++ [] : bytes) at 1. rewrite Hj. cbn [page_bytes].
           exists s_sp2, [10]. split; [reflexivity|]. split; [reflexivity|]. left. reflexivity.
   Qed.
@@ -241,25 +241,30 @@ Section Page.
     apply containsb_occ.
   Qed.
 
+  Lemma detect_one onTop c : detect_artifacts (patch_first onTop None wm c true) = true.
+  Proof.
+    destruct onTop; unfold patch_first, rot_bytes; cbn [app].
+    - replace ((s_q_open ++ c) ++ s_q_close ++ wm) with ((s_q_open ++ c ++ s_q_close) ++ wm ++ [])
+        by (rewrite app_nil_r; repeat rewrite <- app_assoc; reflexivity).
+      apply detect_wm_in.
+    - apply (detect_wm_in [] c).
+  Qed.
+
   (* a page that received a watermark is detected, whatever its previous content *)
   Lemma detect_added onTop ct : nonempty_page ct = true -> detect_page (add_page onTop None wm ct) = true.
   Proof.
     intros Hne. destruct ct as [|c|a].
     - simpl. rewrite <- (app_nil_r wm). apply (detect_wm_in [] []).
-    - destruct onTop; cbn [add_page detect_page patch_first rot_bytes app].
-      + rewrite <- (app_nil_r wm). rewrite <- app_assoc. apply detect_wm_in.
-      + apply (detect_wm_in [] c).
+    - apply detect_one.
     - destruct a as [|c rest]; [discriminate|]. destruct rest as [|c1 rest].
-      + destruct onTop; cbn [add_page detect_page patch_first rot_bytes app].
-        * rewrite <- (app_nil_r wm). rewrite <- app_assoc. apply detect_wm_in.
-        * apply (detect_wm_in [] c).
+      + apply detect_one.
       + cbn [add_page].
         assert (Hd : forall f l, detect_page (CArray (f :: (c1 :: rest) ++ [l])) = detect_artifacts f || detect_artifacts l).
         { intros f l. cbn [detect_page app]. change (c1 :: rest ++ [l]) with ((c1 :: rest) ++ [l]).
           rewrite split_last_snoc. reflexivity. }
         rewrite Hd. destruct onTop.
         * unfold new_stream. rewrite <- (app_nil_r wm). rewrite (detect_wm_in s_q_close []). apply orb_true_r.
-        * unfold patch_first. rewrite (detect_wm_in [] c). reflexivity.
+        * unfold patch_first. pose proof (detect_wm_in [] c) as Hw. cbn [app] in Hw. rewrite Hw. reflexivity.
   Qed.
 
   Lemma detect_clean ct : clean_page ct = true -> detect_page ct = false.
